@@ -169,7 +169,7 @@ func runC10(w *W) {
 		// a call that panics (recovered). What they leave behind (pooled lexers, buffers, counters) must not reach anyone.
 		stopDisturb := make(chan struct{})
 		var dwg sync.WaitGroup
-		disturbInputs := []string{"SELECT 1 ,\n2", "SELECT a ,\n\n\nb FROM t;\nSELECT 3", "SELECT 'x\ny' ,\n1;\nSELECT 2;\nSELECT 3", "SELECT /* c\n */ 1 ,\n(\n2)"}
+		disturbInputs := []string{"SELECT 1 \x00 2", "SELECT 1;\x00", "\xef\xbb\xbfSELECT \xff ,\n1", "SELECT 1 ,\n2", "SELECT a ,\n\n\nb FROM t;\nSELECT 3", "SELECT 'x\ny' ,\n1;\nSELECT 2;\nSELECT 3", "SELECT /* c\n */ 1 ,\n(\n2)"}
 		disturb := func(k int) {
 			in := disturbInputs[k%len(disturbInputs)]
 			switch k % 5 {
@@ -348,7 +348,22 @@ func runC11(w *W) {
 	panickers := []string{"SELECT 1, (EXPLAIN SELECT 1 ORDER)", "SELECT (EXPLAIN SELECT", "SELECT 1 FROM (EXPLAIN SELECT 1 ORDER BY)"}
 	var seenInputs []string
 	seenOut := map[string]string{}
-	for k := 0; k < n+len(siteStatements); k++ {
+	// fixed inputs: the site statements, then the scripts / expression shapes / WINDOW definitions of fuzzspace2.go
+	// (ExplainStatements treats a simple SELECT after an INSERT specially; arrays, tuples and signed literals have printers of their own)
+	fixed := append([]string(nil), siteStatements...)
+	{
+		cnt := 0
+		step := w.pickN(2, 1)
+		fuzzSpace2(w, func(input, desc string) {
+			if desc == "script2" || desc == "script3" || desc == "insert-then-select" || desc == "windows" || desc == "expr" {
+				if cnt%step == 0 {
+					fixed = append(fixed, input)
+				}
+				cnt++
+			}
+		})
+	}
+	for k := 0; k < n+len(fixed); k++ {
 		idx, mine := w.Case()
 		if !mine {
 			continue
@@ -356,8 +371,8 @@ func runC11(w *W) {
 		r := NewRng(w.Seed, uint64(idx), 12)
 		var input string
 		switch {
-		case k < len(siteStatements):
-			input = siteStatements[k]
+		case k < len(fixed):
+			input = fixed[k]
 		case r.Chance(1, 2):
 			input = stmts[r.Intn(len(stmts))].Text
 			if r.Chance(1, 4) {
